@@ -285,7 +285,9 @@ func (e *Exec) run(o Op) Result {
 		}
 		return Result{Kind: "desc", Desc: fromDesc(d)}
 	case "PushBlob":
-		d, err := e.Reg.PushBlob(ctx, o.Repo, ociregistry.Descriptor{MediaType: o.Desc.Media, Digest: ociregistry.Digest(o.Desc.Digest), Size: o.Desc.Size}, bytes.NewReader(o.Content))
+		buf := callerCopy(o.Content)
+		d, err := e.Reg.PushBlob(ctx, o.Repo, ociregistry.Descriptor{MediaType: o.Desc.Media, Digest: ociregistry.Digest(o.Desc.Digest), Size: o.Desc.Size}, bytes.NewReader(buf))
+		scribble(buf)
 		if err != nil {
 			return errResult(err)
 		}
@@ -313,7 +315,9 @@ func (e *Exec) run(o Op) Result {
 		}
 		return Result{Kind: "desc", Desc: fromDesc(d)}
 	case "PushManifest":
-		d, err := e.Reg.PushManifest(ctx, o.Repo, o.Tag, o.Content, o.Media)
+		buf := callerCopy(o.Content)
+		d, err := e.Reg.PushManifest(ctx, o.Repo, o.Tag, buf, o.Media)
+		scribble(buf)
 		if err != nil {
 			return errResult(err)
 		}
@@ -357,7 +361,9 @@ func (e *Exec) run(o Op) Result {
 	w := e.Writers[o.W]
 	switch o.Kind {
 	case "WWrite":
-		n, err := w.Write(o.Content)
+		buf := callerCopy(o.Content)
+		n, err := w.Write(buf)
+		scribble(buf)
 		if err != nil {
 			return errResult(err)
 		}
@@ -508,6 +514,27 @@ func (or *Oracles) Observe(o Op) {
 	case "PushManifest":
 		or.Content(o.Content)
 		or.Manifest(o.Content)
+	}
+}
+
+// callerCopy / scribble: the caller of a push owns its buffer again once the call has returned
+// (io.Writer spells that out for Write) and may reuse it - a bytes.Buffer that is Reset for the
+// next manifest, a pooled read buffer.  Every push is therefore made from a private copy with
+// spare capacity, and the copy is overwritten as soon as the call returns: a registry that kept
+// the caller's slice instead of copying it serves the overwritten bytes afterwards.
+func callerCopy(b []byte) []byte {
+	if b == nil {
+		return nil
+	}
+	c := make([]byte, len(b), len(b)+16)
+	copy(c, b)
+	return c
+}
+
+func scribble(b []byte) {
+	b = b[:cap(b)]
+	for i := range b {
+		b[i] = '#'
 	}
 }
 
